@@ -183,3 +183,21 @@ def nontrivial_key(desc):
 def is_degenerate(desc):
     kind, par = PLACEMENTS[desc["pl"]]
     return (desc["u"] not in (0, 27, 28, 29, 30)) or kind not in ("sep", "sepL") or par in (0.0, 1e-6)
+
+
+def flat_plane_contains_other_centre(rA, rB, L):
+    """The degenerate configuration of the recorded MPR finding (KF-C02-mpr-coplanar-flat): one collider is flat (disk, ellipse,
+    not wrapped in a margin) and the centre of the other collider lies in its plane, so the origin ray of MPR lies in the plane of a
+    flat part of the Minkowski difference and every portal decision v.n ~ 0 is taken on rounding noise."""
+    for F, O in ((rA, rB), (rB, rA)):
+        kind = getattr(F, "kind", "")
+        if kind == "disk":
+            n = np.asarray(F.n, dtype=float)
+        elif kind == "ellipse":
+            n = np.cross(F.axes[0], F.axes[1])
+        else:
+            continue
+        n = n / np.linalg.norm(n)
+        if abs(float(n @ (np.asarray(O.centre(), dtype=float) - np.asarray(F.centre(), dtype=float)))) <= 1e-9 * L:
+            return True
+    return False
